@@ -49,6 +49,76 @@ theorem Exec.bind_err' (e : ε) (f : α → Exec ε ρ β) : (Exec.err e : Exec 
 theorem Exec.bind_panic' (s : String) (f : α → Exec ε ρ β) : (Exec.panic s : Exec ε ρ α).bind f = .panic s := rfl
 theorem Exec.bind_assoc' {γ : Type} (x : Exec ε ρ α) (f : α → Exec ε ρ β) (g : β → Exec ε ρ γ) :
     (x.bind f).bind g = x.bind (fun a => (f a).bind g) := by cases x <;> rfl
+theorem Exec.callFrom_ok {ε' : Type} (k : ε' → Res ε ε) (a : α) : (Exec.callFrom k (.ok a) : Exec ε ρ α) = .val a := rfl
+theorem Exec.callFrom_panic {ε' : Type} (k : ε' → Res ε ε) (s : String) :
+    (Exec.callFrom k (.panic s : Res ε' α) : Exec ε ρ α) = .panic s := rfl
+theorem Exec.callFrom_err {ε' : Type} (k : ε' → Res ε ε) (e : ε') (e' : ε) (h : k e = .ok e') :
+    (Exec.callFrom k (.err e : Res ε' α) : Exec ε ρ α) = .err e' := by
+  simp [Exec.callFrom, h]
+/-! ### forgetting the state carried by errors
+  A `Result` fn with `&mut` state has outcome type `Res (E × State) (State × T)`.  Where the model does not track the
+  state after an error (cursors), the equivalence is stated for the outcome with the error state forgotten. -/
+section forget
+variable {σ : Type}
+def _root_.RenetVerif.Res.forget : Res (ε × σ) α → Res ε α
+  | .ok a => .ok a
+  | .err e => .err e.1
+  | .panic s => .panic s
+def _root_.RenetVerif.RustSem.Exec.forget : Exec (ε × σ) ρ α → Exec ε ρ α
+  | .val a => .val a
+  | .ret r => .ret r
+  | .err e => .err e.1
+  | .panic s => .panic s
+theorem Exec.forget_val (a : α) : (Exec.val a : Exec (ε × σ) ρ α).forget = .val a := rfl
+theorem Exec.forget_ret (r : ρ) : (Exec.ret r : Exec (ε × σ) ρ α).forget = .ret r := rfl
+theorem Exec.forget_err (e : ε × σ) : (Exec.err e : Exec (ε × σ) ρ α).forget = .err e.1 := rfl
+theorem Exec.forget_panic (s : String) : (Exec.panic s : Exec (ε × σ) ρ α).forget = .panic s := rfl
+theorem Exec.forget_run (x : Exec (ε × σ) ρ ρ) : x.run.forget = x.forget.run := by cases x <;> rfl
+theorem Exec.forget_bind (x : Exec (ε × σ) ρ α) (f : α → Exec (ε × σ) ρ β) :
+    (x.bind f).forget = x.forget.bind (fun a => (f a).forget) := by cases x <;> rfl
+theorem Exec.forget_ite (c : Prop) [Decidable c] (a b : Exec (ε × σ) ρ α) :
+    (if c then a else b).forget = if c then a.forget else b.forget := by split <;> rfl
+theorem forEach_forget {τ γ : Type} (l : List γ) (init : τ) (body : γ → τ → Exec (ε × σ) ρ τ) :
+    (RustSem.forEach l init body).forget = RustSem.forEach l init (fun x st => (body x st).forget) := by
+  induction l generalizing init with
+  | nil => rfl
+  | cons x r ih =>
+    rw [RustSem.forEach, Exec.forget_bind, RustSem.forEach]
+    congr 1
+    funext st
+    exact ih st
+theorem forRange_loop_forget {τ : Type} (body : Nat → τ → Exec (ε × σ) ρ τ) (n i : Nat) (st : τ) :
+    (RustSem.forRange.loop body n i st).forget = RustSem.forRange.loop (fun j s => (body j s).forget) n i st := by
+  induction n generalizing i st with
+  | zero => rfl
+  | succ n ih =>
+    rw [RustSem.forRange.loop, Exec.forget_bind, RustSem.forRange.loop]
+    congr 1
+    funext s
+    exact ih (i + 1) s
+theorem forRange_forget {τ : Type} (lo hi : Nat) (init : τ) (body : Nat → τ → Exec (ε × σ) ρ τ) :
+    (RustSem.forRange lo hi init body).forget = RustSem.forRange lo hi init (fun j s => (body j s).forget) :=
+  forRange_loop_forget body _ _ _
+/-- `callee(..)?` whose error conversion `conv` always succeeds (`From` impls do), callee without error state -/
+theorem callFrom_forget {ε' : Type} (conv : ε' → ε) (k : ε' → Res (ε × σ) (ε × σ)) (k0 : ε' → Res ε ε) (st : ε' → σ)
+    (hk : ∀ e, k e = .ok (conv e, st e)) (hk0 : ∀ e, k0 e = .ok (conv e)) (r : Res ε' α) :
+    (Exec.callFrom k r : Exec (ε × σ) ρ α).forget = Exec.callFrom k0 r := by
+  cases r with
+  | ok a => rfl
+  | err e => simp [Exec.callFrom, hk, hk0, Exec.forget]
+  | panic s => rfl
+theorem forget_add (w a b : Nat) (s : String) : (RustSem.add w a b s : Exec (ε × σ) ρ Nat).forget = RustSem.add w a b s := by
+  unfold RustSem.add; split <;> rfl
+theorem forget_sub (w a b : Nat) (s : String) : (RustSem.sub w a b s : Exec (ε × σ) ρ Nat).forget = RustSem.sub w a b s := by
+  unfold RustSem.sub; split <;> rfl
+theorem forget_mul (w a b : Nat) (s : String) : (RustSem.mul w a b s : Exec (ε × σ) ρ Nat).forget = RustSem.mul w a b s := by
+  unfold RustSem.mul; split <;> rfl
+theorem forget_unwrap (o : Option α) (s : String) : (RustSem.unwrap o s : Exec (ε × σ) ρ α).forget = RustSem.unwrap o s := by
+  cases o <;> rfl
+theorem forget_index (l : List α) (i : Nat) (s : String) : (RustSem.index l i s : Exec (ε × σ) ρ α).forget = RustSem.index l i s := by
+  unfold RustSem.index; split <;> rfl
+end forget
+
 theorem Exec.ite_bind (c : Prop) [Decidable c] (a b : Exec ε ρ α) (f : α → Exec ε ρ β) :
     (if c then a else b).bind f = if c then a.bind f else b.bind f := by split <;> rfl
 theorem Exec.ite_run (c : Prop) [Decidable c] (a b : Exec ε ρ ρ) :
